@@ -179,6 +179,8 @@ structure St where
   handles : List (String × Nat) := []   -- script handle token → module id (driver bookkeeping)
   rx : List (String × String) := []    -- regex match table (pattern, topic) supplied by the environment
   trans : List Trans := []             -- ghost
+  released : List ModId := []          -- ghost: modules whose user reference was consumed by a successful m_mod_deregister()
+  unrefd : List ModId := []            -- ghost: modules whose extra user reference (m_mod_ref) was dropped again
   deriving Repr, Inhabited
 
 -- errno values used by the library
